@@ -175,7 +175,7 @@ NUM_RE = {
 # rows of CliFlags!TypeTable (type, mimetype) in table order; the lang comes from the TLC state
 TYPE_ROWS = [('css', 'text/css'), ('htm', 'text/html'), ('html', 'text/html'), ('js', 'application/javascript'),
              ('json', 'application/json'), ('mjs', 'application/javascript'), ('rss', 'application/rss+xml'),
-             ('svg', 'image/svg+xml'), ('webmanifest', 'application/manifest+json'), ('xhtml', 'application/xhtml-xml'),
+             ('svg', 'image/svg+xml'), ('webmanifest', 'application/manifest+json'), ('xhtml', 'application/xhtml+xml'),
              ('xml', 'text/xml')]
 
 BOOL_OPTS = ['KeepComments', 'KeepConditionalComments', 'KeepSpecialComments', 'KeepDefaultAttrVals',
@@ -716,8 +716,7 @@ def run(ctx):
              'model spec/OptDesign.tla (state dump and -simulate walks) under its 2^7 option sets; non-trivial = at '
              'least one option differs from its default and the output differs from the input; distinct by sha1 of '
              '(language, options, flags, exact input); (c) the repository\'s own JS test inputs under 8 Version x KeepVarNames '
-             'settings, judged on those two clauses. Generator exclusion (pinned as known finding, see known/C16.txt): the `xhtml` row of the documented --type '
-             'table; the constructs of the six fixed findings are generated again.',
+             'settings, judged on those two clauses. No generator exclusions at present: the constructs of the seven fixed findings (known/C16.txt) are generated again.',
         samples=tally.samples,
     ))
     ctx.assumptions += [
